@@ -48,6 +48,14 @@ def _section_items(case: dict, sec: dict, tag: str, bad: str | None) -> list[str
         items.append("disable_all = true")
     if bad == "unknown_key":
         items.append("no_such_option_xyz = true")
+    elif bad == "bool_for_int":
+        # TOML `true` where an integer is expected (for the other kinds: a string where a bool / list is expected)
+        wrong = {"bool": '"true"', "int": "true", "list": '"x"'}[case["kind"]]
+        items = [it for it in items if not it.startswith(name + " =")]
+        items.append(f"{name} = {wrong}")
+    elif bad == "disable_all_not_bool":
+        items = [it for it in items if not it.startswith("disable_all")]
+        items.append('disable_all = "yes"')
     elif bad == "wrong_type":
         wrong = {"bool": '"yes"', "int": '"many"', "list": "3"}[case["kind"]]
         # replace/add the option with a value of the wrong TOML type
